@@ -27,7 +27,8 @@
 #define NS 1
 #endif
 static float chan[CH*NS]; static float *pcmv[CH]; static int avail; static int readn=-1; static int hsflag;
-int vorbis_synthesis_pcmout(vorbis_dsp_state *v,float ***pcm){ if(pcm)*pcm=pcmv; return avail; }
+static int g_first_empty=0, g_newlink=0, g_newch=1; static OggVorbis_File *g_vfp;
+int vorbis_synthesis_pcmout(vorbis_dsp_state *v,float ***pcm){ if(g_first_empty) return 0; if(pcm)*pcm=pcmv; return avail; }
 int vorbis_synthesis_read(vorbis_dsp_state *v,int n){ readn=n; return 0; }
 int vorbis_synthesis_halfrate_p(vorbis_info *vi){ return hsflag; }
 #if !VERIF_NATIVE
@@ -39,12 +40,22 @@ int __builtin_ia32_cvtsd2si(__attribute__((vector_size(16))) double v){
   return (int)r; }
 #endif
 #include "vorbisfile.c"
+/* cut: _fetch_and_process_packet -> "one packet decoded, possibly after crossing into another link" (its own harness: F-fetch) */
+static int _fetch_and_process_packet(OggVorbis_File *vf,ogg_packet *op_in,int readp,int spanp){
+  g_first_empty=0;
+  if(vf->seekable) vf->current_link=g_newlink; else vf->vi[0].channels=g_newch;     /* streaming handles reload slot 0 */
+  return 1; }
 void harness(void){
   OggVorbis_File vf; vorbis_info vi[2]; memset(&vf,0,sizeof vf); memset(vi,0,sizeof vi);
   vf.ready_state=INITSET; vf.seekable=ND_BOOL(); vf.links=2; vf.vi=vi; vf.current_link=ND_irange(0,1);
   vi[0].channels=ND_irange(1,CH); vi[1].channels=ND_irange(1,CH);
-  int link= vf.seekable? vf.current_link:0;      /* streaming handles keep the current link's info in slot 0 */
-  int ch=vi[link].channels;
+  g_first_empty=ND_BOOL(); g_newlink=ND_irange(0,1); g_newch=ND_irange(1,CH); g_vfp=&vf;
+  /* if nothing is pending the call first decodes one more packet, which may cross into another link: the frame layout is that of the link current AFTERWARDS */
+  int crossed=g_first_empty;
+  if(crossed){ if(vf.seekable) {} else {} }
+  int link= vf.seekable? (crossed? g_newlink : vf.current_link):0;      /* streaming handles keep the current link's info in slot 0 */
+  int ch= (!vf.seekable && crossed)? g_newch : vi[link].channels;
+  int link_after= vf.seekable? link : vf.current_link;
   hsflag=ND_BOOL();
   avail=ND_irange(1,NS);
   for(int c=0;c<CH;c++){ pcmv[c]=chan+c*NS; for(int j=0;j<NS;j++){ float x=ND_float(); chan[c*NS+j]=x;
@@ -68,7 +79,7 @@ void harness(void){
     CHECK(r==want*frame,"returns a whole number of frames not exceeding the buffer");
     CHECK(readn==want,"consumes exactly the frames returned");
     CHECK(vf.pcm_offset==p0+(want<<hsflag),"position advances by the frames returned (x2 at half rate)");
-    CHECK(bs==vf.current_link,"bitstream index reported");
+    CHECK(bs==link_after && vf.current_link==link_after,"bitstream index reported is the link the samples belong to");
     for(int i=0;i<CH*NS*2+2;i++) if(i>=r) CHECK(buf[i]==shadow[i],"nothing written beyond the returned length");
     for(int j=0;j<NS;j++) if(j<want) for(int c=0;c<CH;c++) if(c<ch){
       float x=chan[c*NS+j]; double s=(double)x*(WORD==1?128.0:32768.0); long lo=(WORD==1?-128:-32768), hi=(WORD==1?127:32767);
@@ -89,5 +100,6 @@ void harness(void){
     }
     if(ch==CH && want==NS) WITNESS_AT("full frame set");
     if(vf.seekable && vf.current_link==1 && vi[0].channels!=vi[1].channels) WITNESS_AT("second link with different channel count");
+    if(crossed && vf.seekable && link!=ND_irange(0,1)) WITNESS_AT("link crossed inside the call");
   }
 }
